@@ -595,6 +595,23 @@ def w_projections(ctx, rng, i):
                 break
     except Exception as e:
         ctx.fail("compose_raised", cls=type(B).__name__, mech="dimension_slicing_link:" + type(e).__name__, error=repr(e)[:160])
+    # operands a hair away from the identity (the small steps of an iterative fit: factors 1 +- a few 1e-6): the law is exact
+    # for them as for any others, at points of any size
+    eps_ = rng.uniform(2e-6, 9e-6, dout) * rng.choice([-1.0, 1.0], dout)
+    n1 = [mt.UniformScale(1.0 + float(eps_[0]), dout), mt.NonUniformScale(1.0 + eps_), mt.Affine(np.diag(np.r_[1.0 + eps_, 1.0]))][rng.integers(0, 3)]
+    n2 = [mt.Translation(rng.uniform(-3, 3, dout)), mt.NonUniformScale(1.0 - eps_[::-1]), mt.UniformScale(1.0 + 3e-6, dout)][rng.integers(0, 3)]
+    xs = probe_pts(dout) * 1e3
+    for nm_, f_, h_ in (("before", lambda: n1.compose_before(n2), np.array(n2.h_matrix, dtype=float) @ np.array(n1.h_matrix, dtype=float)),
+                        ("after", lambda: n1.compose_after(n2), np.array(n1.h_matrix, dtype=float) @ np.array(n2.h_matrix, dtype=float))):
+        ctx.tap("near_identity_operands", "calls"); ctx.tap("near_identity_operands", "checked")
+        c_ = f_()
+        y_ = np.hstack([xs, np.ones((len(xs), 1))]) @ h_.T
+        exp_ = y_[:, :-1] / y_[:, -1:]
+        seq_ = np.asarray(n2.apply(n1.apply(xs.copy())) if nm_ == "before" else n1.apply(n2.apply(xs.copy())), dtype=float)
+        sc_ = max(1.0, float(np.abs(exp_).max()))
+        if tx.maxdiff(np.asarray(c_.apply(xs.copy()), dtype=float), exp_) > 1e-10 * sc_ or tx.maxdiff(seq_, exp_) > 1e-10 * sc_:
+            ctx.fail("composition_law_violated", cls=type(n1).__name__, mech="near_identity_operands:" + nm_,
+                     err=max(tx.maxdiff(np.asarray(c_.apply(xs.copy()), dtype=float), exp_), tx.maxdiff(seq_, exp_)) / sc_)
     for v, h in ((P, hP), (A, hA), (B, hB)):
         if tx.maxdiff(v.h_matrix, h) > 0:
             ctx.fail("compose_modified_an_operand", cls=type(v).__name__, mech="change_of_dimension")
